@@ -104,6 +104,16 @@ def m_unstable_from_initial_guess(case, st, v=None):
             and str(case.get("msg", "")).startswith("Unstable system") and 0 < int(case.get("sweeps", 0)) <= 2)
 
 
+def m_rectifier_rs_list(case, st, v=None):
+    """F16: the system contains a MOSFET Rectifier whose rs was given as a list"""
+    try:
+        exc = case.get("exc") or (case.get("end") or {}).get("exc")
+        return exc == "TypeError" and any(
+            c["cls"] == "Rectifier" and c["pay"]["params"].get("rs", {}).get("k") == "l" for c in st["comps"])
+    except Exception:
+        return False
+
+
 MATCHERS = {k[2:]: v for k, v in globals().items() if k.startswith("m_")}
 
 
